@@ -4,7 +4,7 @@ CONSTANTS
   MaxInt = 3
   Enforce = {"send", "credit", "recv"}
   MCw = 2
-  MCmf = 2
+  MCmf = 1
   MCn = 1
   MCrefresh = 2
 INVARIANTS Conservation CreditBounded SentWithinWritten QuiescentCredit
